@@ -79,7 +79,13 @@ def _no_aslr():
 NO_ASLR = _no_aslr()
 BATCH_PREFIX = {}    # design key -> the designs built before it (and itself) in its worker process
 EXPORTERS = ['output_to_verilog', 'output_verilog_testbench', 'print_vcd', 'print_trace', 'simulation_trace',
-             'fastsim_trace']
+             'fastsim_trace',
+             # the same exporters on a copy_block() copy of the design
+             'copy:output_to_verilog', 'copy:output_verilog_testbench', 'copy:print_vcd', 'copy:print_trace',
+             'copy:simulation_trace',
+             # on a CompiledSimulation trace (designs flagged 'compiled')
+             'compiled:print_vcd', 'compiled:print_trace', 'compiled:output_verilog_testbench',
+             'compiled:simulation_trace']
 KINDCODE = {'Input': 0, 'Output': 1, 'Register': 2, 'Const': 3}
 
 
@@ -306,17 +312,20 @@ def run_workers(ctx, mode, specs, configs, batch, tag):
     os.makedirs(wd, exist_ok=True)
     os.makedirs(textdir, exist_ok=True)
     jobs = []
-    for ci, (hs, noise) in enumerate(configs):
+    for ci, cfg_ in enumerate(configs):
+        hs, noise = cfg_[0], cfg_[1]
+        order = cfg_[2] if len(cfg_) > 2 else 0
         for b in range(0, len(specs), batch):
             jf = os.path.join(wd, '%s_%d_%d.job.json' % (tag, ci, b))
             of = os.path.join(wd, '%s_%d_%d.out.json' % (tag, ci, b))
             with open(jf, 'w') as f:
-                json.dump({'noise': noise, 'textdir': textdir, 'designs': specs[b:b + batch], 'mode': mode}, f)
-            jobs.append(((hs, noise), jf, of))
+                json.dump({'noise': noise, 'order': order, 'textdir': textdir, 'designs': specs[b:b + batch],
+                           'mode': mode}, f)
+            jobs.append((tuple(cfg_), jf, of))
 
     def one(job):
-        (hs, noise), jf, of = job
-        env = dict(os.environ, PYTHONHASHSEED=str(hs))
+        cfg_, jf, of = job
+        env = dict(os.environ, PYTHONHASHSEED=str(cfg_[0]))
         # address-space randomisation off: object addresses (hence id()-hashed set orders) become a
         # function of (hash seed, allocation noise) alone, so a configuration replays exactly
         p = subprocess.run(NO_ASLR + [sys.executable, os.path.join(os.path.dirname(HERE), 'c20_worker.py'), jf, of],
@@ -327,7 +336,7 @@ def run_workers(ctx, mode, specs, configs, batch, tag):
             out = json.load(f)
         os.remove(jf)
         os.remove(of)
-        return (hs, noise), out
+        return cfg_, out
 
     for b in range(0, len(specs), batch):
         for j, sp in enumerate(specs[b:b + batch]):
@@ -347,14 +356,22 @@ def load_text(textdir, key, exporter, h):
 
 
 def make_specs(ctx, n, tag, classes):
+    # 'compiled': also run CompiledSimulation (gcc, ~0.3 s) -- designs whose Inputs/Outputs carry names
+    # needing sanitising, and a few others
     return [{'key': '%s%d' % (tag, i), 'seed': 'C20:%d:%s:%d' % (ctx.seed, tag, i), 'cls': classes[i % len(classes)],
-             'max_ops': 18} for i in range(n)]
+             'max_ops': 18, 'compiled': classes[i % len(classes)] in ('sani', 'both', 'genlike') or i % 11 == 0}
+            for i in range(n)]
 
 
 def make_configs(ctx, nseeds, noises):
     rng = ctx.sub_rng('configs')
     seeds = list(range(min(nseeds, 4))) + [rng.randrange(5, 2 ** 32 - 1) for _ in range(max(0, nseeds - 4))]
     return [(hs, nz) for hs in seeds for nz in noises]
+
+
+def with_orders(configs):
+    """third coordinate: the order in which the exporters are called inside the process"""
+    return [(hs, nz, i % len(W.ORDERS)) for i, (hs, nz) in enumerate(configs)]
 
 
 # ------------------------------------------------------------------ classification of a text difference
@@ -547,7 +564,7 @@ def tie_emitters(ctx, exp_res, textdir, specs, per_design):
             ws = clist('(%s, %d)' % (codes(nm), KINDCODE.get(k, 4)) for nm, k in zip(r['set_order'], r['kinds']))
             exprs.append('testbench_case [[0]; [1]; [2]] %s' % ws)
             meta.append(('testbench', key, cfg, r))
-            tr = clist(codes(x) for x in r['tracked_order'])
+            tr = clist(codes(x) for x in r.get('trace_keys', r['tracked_order']))
             exprs.append('trace_case %s' % tr)
             meta.append(('trace', key, cfg, r))
             exprs.append('vcd_case %s %s' % (tr, tr))
@@ -648,16 +665,51 @@ def search_exports(ctx, exp_res, textdir, specs):
             new_order = tuple(r['set_order']) not in seen
             seen.add(tuple(r['set_order']))
             for ex in EXPORTERS:
+                if ex not in r['sha']:
+                    continue
                 ctx.case((key, tuple(r['set_order']), ex), nontrivial=(r['nwires'] >= 8 and new_order),
                          sample={'design': spec, 'config': list(cfg), 'exporter': ex, 'wires': r['nwires'],
                                  'set_order_head': r['set_order'][:6], 'sha': r['sha'][ex]}
                          if (key.endswith('1') and ex == 'output_to_verilog' and len(seen) <= 1) else None)
+        # observations made inside each process
+        for cfg, r in runs:
+            rep0 = {'design': spec, 'batch_prefix': BATCH_PREFIX.get(key, [spec]), 'seed': ctx.seed, 'config': list(cfg)}
+            for ex in r.get('changed_on_second_call', []):
+                ctx.spec_violation('export-changes-later-export:%s' % ex.split(':')[-1],
+                                   '%s printed a different text when called a second time in the same process (after the '
+                                   'other exporters had run, call order %s) on design %s: an export call is not read-only '
+                                   'with respect to later exports' % (ex, r.get('order'), key), dict(rep0, exporter=ex))
+            for ex, dups in r.get('duplicate_identifiers', {}).items():
+                ctx.spec_violation('duplicate-identifier:%s' % ex.split(':')[-1],
+                                   '%s text of design %s declares identifier(s) %s more than once (exporter call order %s)'
+                                   % (ex, key, dups[:4], r.get('order')), dict(rep0, exporter=ex, duplicates=dups))
+            for ex, err in r.get('export_errors', {}).items():
+                ctx.spec_violation('export-raises:%s:%s' % (ex.split(':')[-1], err.split(':')[0].replace('ERR ', '')),
+                                   '%s raised on design %s: %s' % (ex, key, err), dict(rep0, exporter=ex))
         for ex in EXPORTERS:
+            if any(ex not in r['sha'] for _, r in runs):
+                continue
+            base = ex.split(':')[-1]
             byhash = collections.OrderedDict()
+            by_order = collections.defaultdict(set)
             for cfg, r in runs:
                 byhash.setdefault(r['sha'][ex], cfg)
+                by_order[cfg[2] if len(cfg) > 2 else 0].add(r['sha'][ex])
             ctx.count('distinct_texts:' + ex, len(byhash))
             if len(byhash) == 1:
+                continue
+            if len(by_order) > 1 and all(len(v) == 1 for v in by_order.values()):
+                # identical under every schedule that calls the exporters in the same order, different
+                # between call orders: the text depends on which exporter ran first in the process
+                h0, h1 = list(byhash)[:2]
+                ctx.spec_violation('export-order-dependent:%s' % base,
+                                   '%s text of design %s depends on the order in which the exporters are called in one '
+                                   'process (call orders %s vs %s), not on the schedule'
+                                   % (ex, key, W.ORDERS[byhash[h0][2]], W.ORDERS[byhash[h1][2]]),
+                                   {'design': spec, 'batch_prefix': BATCH_PREFIX.get(key, [spec]), 'seed': ctx.seed,
+                                    'exporter': ex, 'config_a': list(byhash[h0]), 'config_b': list(byhash[h1]),
+                                    'first_differing_lines': _first_diff(load_text(textdir, key, ex, h0),
+                                                                         load_text(textdir, key, ex, h1))})
                 continue
             hashes = list(byhash)
             t1 = load_text(textdir, key, ex, hashes[0])
@@ -665,8 +717,8 @@ def search_exports(ctx, exp_res, textdir, specs):
             unexplained = None
             for h in hashes[1:]:
                 t2 = load_text(textdir, key, ex, h)
-                n_inv = r0['n_invalid_tracked'] if ex == 'print_vcd' else r0['n_invalid']
-                why = explain_difference(t1, t2, names, n_inv, shared) if not ex.endswith('_trace') or ex == 'print_trace' else None
+                n_inv = r0['n_invalid_tracked'] if base == 'print_vcd' else r0['n_invalid']
+                why = explain_difference(t1, t2, names, n_inv, shared) if not base.endswith('_trace') or base == 'print_trace' else None
                 if why is None:
                     unexplained = h
                     break
@@ -690,7 +742,7 @@ def search_exports(ctx, exp_res, textdir, specs):
                 for why in sorted(why_all):
                     ctx.spec_violation('nondeterministic:%s:%s' % (ex, why),
                                        '%s text depends on the schedule (%s): design %s gives %d distinct texts over %d '
-                                       '(hash seed, allocation noise) configurations'
+                                       '(hash seed, allocation noise, call order) configurations'
                                        % (ex, why, key, len(byhash), len(runs)), rep)
         ctx.count('fastsim_equals_sim(informational, C02)', all(r.get('fast_equals_sim') for _, r in runs))
         # informational: exporters outside the property's byte-identical list
@@ -792,10 +844,10 @@ def run(ctx):
     t0 = time.time()
     tie_names(ctx)
     ctx.notes.append('tie_names %.1fs' % (time.time() - t0))
-    classes = ['plain', 'sani', 'zeros', 'both', 'memtie', 'samename', 'case', 'blif', 'iscas', 'blif']
-    specs = make_specs(ctx, 70 if quick else 240, 'e', classes)
-    configs = make_configs(ctx, 4 if quick else 8, [0, 2, 5] if quick else [0, 1, 3, 7])
-    exp_res, textdir = run_workers(ctx, 'export', specs, configs, batch=35 if quick else 60, tag='exp')
+    classes = ['plain', 'sani', 'zeros', 'both', 'memtie', 'samename', 'case', 'blif', 'iscas', 'genlike', 'blif']
+    specs = make_specs(ctx, 77 if quick else 242, 'e', classes)
+    configs = with_orders(make_configs(ctx, 4 if quick else 8, [0, 2, 5] if quick else [0, 1, 3, 7]))
+    exp_res, textdir = run_workers(ctx, 'export', specs, configs, batch=39 if quick else 61, tag='exp')
     ctx.notes.append('export workers done at %.1fs' % (time.time() - t0))
     search_exports(ctx, exp_res, textdir, specs)
     ctx.notes.append('search_exports done at %.1fs' % (time.time() - t0))
